@@ -456,6 +456,152 @@ theorem truncated_post_state_fails :
 
 end dispatch
 
+/-! ### instruments: all bracketings -/
+section inst
+variable {K : Type} [CommRing K] {n : Nat}
+
+/-- a bracketing of a chain of instruments (lists of outcome maps) -/
+inductive ITree (K : Type) (n : Nat)
+  | leaf (hss : List (Mat K n n))
+  | node (l r : ITree K n)
+
+/-- evaluation with the corrected sequential composition (`l` after `r`) -/
+def ITree.eval : ITree K n → List (Mat K n n)
+  | .leaf h => h
+  | .node l r => mpMpFixed l.eval r.eval
+
+def ITree.leaves : ITree K n → List (List (Mat K n n))
+  | .leaf h => [h]
+  | .node l r => l.leaves ++ r.leaves
+
+/-- right-nested composition of a chain (latest first), the trivial one-outcome identity instrument for `[]` -/
+def foldInst : List (List (Mat K n n)) → List (Mat K n n)
+  | [] => [Mat.one]
+  | h :: t => mpMpFixed h (foldInst t)
+
+/-- helper: unit law: composing with the one-outcome identity instrument on the right changes nothing -/
+theorem mpMpFixed_one_right (h : List (Mat K n n)) : mpMpFixed h [Mat.one] = h := by
+  simp [mpMpFixed, mul_one']
+
+/-- helper: `1·A = A` for the executable matrix product -/
+theorem one_mul_mat (A : Mat K n n) : (Mat.one : Mat K n n).mul A = A := by
+  apply Mat.toM_injective; simp
+
+/-- helper: unit law: composing with the one-outcome identity instrument on the left changes nothing -/
+theorem mpMpFixed_one_left (h : List (Mat K n n)) : mpMpFixed [Mat.one] h = h := by
+  simp [mpMpFixed, one_mul_mat]
+
+/-- helper: the right-nested composition of a concatenated chain is the composition of the two right-nested parts (monoid homomorphism; uses `mpMpFixed_assoc`) -/
+theorem foldInst_append (a b : List (List (Mat K n n))) :
+    foldInst (a ++ b) = mpMpFixed (foldInst a) (foldInst b) := by
+  induction a with
+  | nil => simp [foldInst, mpMpFixed_one_left]
+  | cons h t ih => simp only [List.cons_append, foldInst, ih, mpMpFixed_assoc]
+
+/-- C06 "any two ways of bracketing the same time-ordered chain give the same outcome statistics with the same
+outcome labelling", for the corrected `MProcess∘MProcess`: every bracketing of a chain of instruments (any length,
+any outcome counts) evaluates to the same *list* of outcome maps — same maps, same layout — namely the
+right-nested composition of the leaves. -/
+theorem instrument_bracketing (t : ITree K n) : t.eval = foldInst t.leaves ∧
+    ∀ t' : ITree K n, t'.leaves = t.leaves → t'.eval = t.eval := by
+  have key : ∀ t : ITree K n, t.eval = foldInst t.leaves := by
+    intro t
+    induction t with
+    | leaf h => simp [ITree.eval, ITree.leaves, foldInst, mpMpFixed_one_right]
+    | node l r ihl ihr => simp only [ITree.eval, ITree.leaves, foldInst_append, ihl, ihr]
+  exact ⟨key t, fun t' h => by rw [key t', key t, h]⟩
+
+/-- the branches `Gate∘Gate`, `Gate∘MProcess`, `MProcess∘Gate` of the coded dispatch are instances of the corrected
+sequential composition (a gate is the one-outcome instrument) — only `MProcess∘MProcess` deviates. -/
+theorem coded_branches_eq_fixed (a b : Mat K n n) (hss : List (Mat K n n)) :
+    [a.mul b] = mpMpFixed [a] [b] ∧
+    (hss.map fun hs => a.mul hs) = mpMpFixed [a] hss ∧
+    (hss.map fun hs => hs.mul b) = mpMpFixed hss [b] := by
+  refine ⟨by simp [mpMpFixed], ?_, by simp [mpMpFixed]⟩
+  simp only [mpMpFixed, List.map_cons, List.map_nil]
+  induction hss with
+  | nil => rfl
+  | cons h t ih => simp [List.flatMap_cons, ih]
+
+end inst
+
+/-! ### ensembles -/
+section ens
+variable {n : Nat} [NeZero n]
+/-- the unnormalised (Kraus-level) states an ensemble stands for: `p_x · ρ_x` -/
+def weighted (ps : List Rat) (sts : List (Vec Rat n)) : List (Vec Rat n) :=
+  List.zipWith (fun p s => Vec.smul p s) ps sts
+
+omit [NeZero n] in
+/-- helper: `zipWith` of two maps over the same list -/
+theorem zipWith_map_same {α β γ δ : Type} (f : β → γ → δ) (g : α → β) (h : α → γ) (l : List α) :
+    List.zipWith f (l.map g) (l.map h) = l.map fun a => f (g a) (h a) := by
+  induction l with
+  | nil => rfl
+  | cons a t ih => simp [ih]
+
+omit [NeZero n] in
+/-- helper: linearity of the outcome maps in the ensemble weight: `A(w·v) = w·(A v)` -/
+theorem mulVec_smul (A : Mat Rat n n) (w : Rat) (v : Vec Rat n) :
+    A.mulVec (Vec.smul w v) = Vec.smul w (A.mulVec v) := by
+  apply Vec.ext'; intro i
+  simp only [Mat.mulVec, Vec.smul, Vec.get_ofFn, fsum_eq_sum, Finset.mul_sum]
+  apply Finset.sum_congr rfl; intro k _; ring
+
+/-- C06 "(earlier, later) labelling of `MProcess∘StateEnsemble`", generic regime (no outcome truncated): the
+unnormalised states `p·ρ` of the new ensemble are, block by block, the outcome maps applied to the unnormalised
+states of the old ensemble — old outcome slow, new outcome fast — i.e. `applyInst`. With `applyInst_comp` this
+gives `M₂∘(M₁∘E) = (M₂ ∘fixed M₁)∘E` for all outcome counts. Partial: truncated outcomes are excluded. -/
+theorem ensemble_step_partial (sd eps : Rat) (hss : List (Mat Rat n n)) (sp : List (Vec Rat n × Rat))
+    (heps : 0 ≤ eps)
+    (hno : ∀ x ∈ sp, ∀ hs ∈ hss, ¬ x.2 * (sd * (hs.mulVec x.1).get 0) ≤ eps) :
+    weighted ((sp.map fun x => forStates sd eps hss x.1 x.2).flatMap (·.2))
+             ((sp.map fun x => forStates sd eps hss x.1 x.2).flatMap (·.1))
+      = applyInst hss (sp.map fun x => Vec.smul x.2 x.1) := by
+  induction sp with
+  | nil => simp [weighted, applyInst]
+  | cons x t ih =>
+    have hx := mprocess_state_partial sd eps hss x.1 x.2 heps (hno x (by simp))
+    have ih' := ih (fun y hy => hno y (by simp [hy]))
+    simp only [List.map_cons, List.flatMap_cons, weighted, applyInst] at *
+    rw [List.zipWith_append (by rw [hx]; simp)]
+    rw [ih', hx]
+    congr 1
+    simp only [zipWith_map_same]
+    apply List.map_congr_left
+    intro hs hh
+    have hne : sd * (hs.mulVec x.1).get 0 ≠ 0 := by
+      intro h0
+      apply hno x (by simp) hs hh
+      rw [h0, mul_zero]; exact heps
+    rw [mulVec_smul]
+    apply Vec.ext'; intro i
+    simp only [Vec.smul, vdiv, Vec.get_ofFn]
+    rw [mul_assoc, mul_div_cancel₀ _ hne]
+
+end ens
+
+/-! ### D4 -/
+
+/-- D4 (`Povm.generate_mprocess(mode_backaction=1)`, povm.py:738): `zip(eigenvals, eigenvecs)` walks the **rows** of
+the eigenvector matrix although `eigh` returns eigenvectors as columns. "to_povm ∘ generate_mprocess(1) = id" is
+false already for a real projector: `Π = |ψ⟩⟨ψ|`, `ψ = (3/5, 4/5)`, with the orthogonal eigenvector matrix
+`U = [[4/5, 3/5], [-3/5, 4/5]]` (`Π = U·diag(0,1)·Uᵀ` holds) the generated outcome map reads back as
+`[[9/25, -12/25], [-12/25, 16/25]] ≠ Π`. -/
+theorem mode1_to_povm_fails :
+    ¬ ∀ (ev : Vec Rat 2) (U : Mat Rat 2 2), (U.transpose.mul U = Mat.one) →
+        mode1Effect ev.toList U = eighRecon ev U := by
+  intro h
+  have := h #v[0, 1] #v[#v[4/5, 3/5], #v[-3/5, 4/5]] (by decide +kernel)
+  revert this
+  decide +kernel
+
+/-- … while the same data read column-wise (the proposed patch: iterate `eigenvecs.T`) does reproduce `Π`. -/
+theorem mode1_columns_witness :
+    mode1Effect [0, 1] (Mat.transpose (#v[#v[4/5, 3/5], #v[-3/5, 4/5]] : Mat Rat 2 2))
+      = eighRecon #v[0, 1] #v[#v[4/5, 3/5], #v[-3/5, 4/5]] := by
+  decide +kernel
+
 /-! ### non-vacuity: concrete instances of the hypotheses (1 qubit, normalised Pauli basis, `sd² = 2` replaced by
 the rational stand-in `sd = 1` on a 1-dimensional system where needed) -/
 
